@@ -69,7 +69,7 @@ ASSUMPTIONS = [
     "recorded contents have the vdb ContentsFile shape, new contents the livefs.scan(image, offset=image) shape",
     "runs as root; chroot(2) available",
 ]
-BUDGET = {"quick": 50, "thorough": 900}
+BUDGET = {"quick": 30, "thorough": 840}
 
 TRIGGERS = ["merge", "unmerge", "basesys", "cfg_install", "cfg_uninstall"]
 
@@ -113,6 +113,9 @@ def cases(draw):
     root, old, new = [], [], []
     used = set()
     old_dirs = set()
+    # a COLLISION_IGNORE token that names an existing directory is a "directory entry"
+    if any("/etc/ign.d" in f["vars"].get("COLLISION_IGNORE", ()) for f in envd) and draw(st.integers(0, 9)) < 7:
+        root.append({"path": "etc/ign.d", "type": "dir"})
     for i in range(draw(st.integers(1, 5))):
         d = draw(st.sampled_from(CFGDIRS))
         name = draw(st.sampled_from(NAMES))
@@ -387,7 +390,7 @@ def evaluate(ctx, case, record=True):
 def plan(tier, seed):
     if tier == "quick":
         return [{"task": "hyp", "examples": 300} for _ in range(16)]
-    return [{"task": "hyp", "examples": 6000} for _ in range(32)]
+    return [{"task": "hyp", "examples": 3000} for _ in range(32)]
 
 
 def run_task(ctx, task, **kw):
@@ -395,7 +398,7 @@ def run_task(ctx, task, **kw):
         raise core.HarnessError(f"unknown task {task}")
     try:
         M.warm_up(ctx)
-        core.hyp_run(ctx, cases(), lambda c: evaluate(ctx, c), kw["examples"], chunk=100)
+        core.hyp_run(ctx, cases(), lambda c: evaluate(ctx, c), kw["examples"], chunk=50)
     finally:
         M.cleanup()
 
